@@ -103,17 +103,29 @@ def lifeDrvStep (s : Life) (args : List String) : Life × String :=
     else (s, s!"loops={s.loops}")
   | _ => (s, "bad-op")
 
-/-- component `ethrpc`: what a geth node's RPC endpoint receives for each instruction of the agent -/
-def ethRpcStep (args : List String) : String :=
+/-- component `ethrpc`: what the node's RPC endpoint receives for each instruction of the agent, per kind of node:
+geth takes `admin_*` with the `enode://` prefix added to a bare id; parity only has reserved peers and wants a full
+URI (a bare id gets the prefix and the unspecified address); pantheon's `admin_addPeer` / `admin_removePeer` get the
+argument as it is -/
+def ethRpcStep (kind : String) (args : List String) : String × String :=
   match args with
+  | ["kind", k] => if k == "geth" || k == "parity" || k == "pantheon" then (k, "ok " ++ k) else (kind, "bad-op")
   | [op, arg] =>
-    let a := untok (encodeNodeID (tok arg))
-    match op with
-    | "connect" => "sent admin_addPeer " ++ a
-    | "disconnect" => "sent admin_removePeer " ++ a
-    | "trust" => "sent admin_addTrustedPeer " ++ a
-    | "untrust" => "sent admin_removeTrustedPeer " ++ a
-    | _ => "bad-op"
-  | _ => "bad-op"
+    let raw := tok arg
+    let add := op == "connect" || op == "trust"
+    if !(add || op == "disconnect" || op == "untrust") then (kind, "bad-op") else
+    if kind == "parity" then
+      let a := if hasEnodePrefix raw then raw else "enode://" ++ raw ++ "@[::]:30303"
+      (kind, "sent " ++ (if add then "parity_addReservedPeer " else "parity_removeReservedPeer ") ++ untok a)
+    else if kind == "pantheon" then
+      (kind, "sent " ++ (if add then "admin_addPeer " else "admin_removePeer ") ++ untok raw)
+    else
+      let a := untok (encodeNodeID raw)
+      (kind, match op with
+        | "connect" => "sent admin_addPeer " ++ a
+        | "disconnect" => "sent admin_removePeer " ++ a
+        | "trust" => "sent admin_addTrustedPeer " ++ a
+        | _ => "sent admin_removeTrustedPeer " ++ a)
+  | _ => (kind, "bad-op")
 
 end Vipnode.Drv
